@@ -183,12 +183,14 @@ func (b Bool) MarshalJSON() ([]byte, error) {
 // MarshalJSON creates a key-value pair in JSON format. A null value
 // in an attribute will return an empty byte array.
 func (a *Attribute) MarshalJSON() ([]byte, error) {
-	if _, ok := a.Value.(Null); ok {
-		return nil, nil
-	}
+	// the key is encoded first so that an invalid key is rejected
+	// even when the attribute is going to be skipped
 	key, err := encodeString(a.Key)
 	if err != nil {
 		return nil, err
+	}
+	if _, ok := a.Value.(Null); ok {
+		return nil, nil
 	}
 	val, err := a.Value.MarshalJSON()
 	if err != nil {
